@@ -861,6 +861,16 @@ def c20(ctx):
     m = ctx.model
     ex, ts = transitions(ctx, 'cmd')
     ctx.assume('variable values and handler behaviour are part of a line\'s input, as in the statement')
+    # "each line is answered on its own" first of all means that the answer is given at the end of that line:
+    # an answer before the LF makes the rest of the line a line of its own (the history analysis of C01)
+    from .core import Ctx as _Ctx
+    sub = _Ctx('C01', ctx.model, ctx.tier)
+    sub.extra['_separation_checked'] = True
+    c01(sub)
+    ctx.instance('own-answer', sum(v for k, v in sub.counts.items() if k in ('C01/ack-after-lf', 'C01/read-after-lf')))
+    for f in sub.findings:
+        if f.rule in ('C01/ack-after-lf', 'C01/read-after-lf'):
+            ctx.check('own-answer', False, f.site, 'a line is not answered as one unit: ' + f.msg)
     # stale-field dataflow from IDLE
     by_from = {}
     for t in ts:
